@@ -28,9 +28,9 @@ for _k, _fs in CONFIGS.items():
 UNIT_CAP = 150
 BUDGET_S = {'quick': 280, 'thorough': 2400}
 
-DEEP = {'no-cache-type-score': ('t2-cache',), 'no-fix-weight-length': ('c4-fixed8', 'c5-var'), 'bytewise-pma': ('c2-suffix',),
-        'portable-simd': ('c4-fixed8',), 'no-std': ('c2-suffix',), 'minimal': ('c4-fixed8',), 'no-tag-prediction': ('c2-suffix',)}
-SHAPES = {k: C01_harness.SHAPES[k] for k in ('c2-suffix', 'c4-fixed8', 'c5-var', 't2-cache', 'mix', 'c2-mb', 't4-nocache')}
+DEEP = {'no-cache-type-score': ('t2-cache', 't2-nested'), 'no-fix-weight-length': ('c4-fixed8', 'c5-var'), 'bytewise-pma': ('c2-suffix',),
+        'portable-simd': ('c4-fixed8',), 'no-std': ('c2-suffix',), 'minimal': ('c4-fixed8', 't2-nested'), 'no-tag-prediction': ('c2-suffix',)}
+SHAPES = {k: C01_harness.SHAPES[k] for k in ('c2-suffix', 'c4-fixed8', 'c5-var', 't2-cache', 'mix', 'c2-mb', 't4-nocache', 't2-nested')}
 TAG_SHAPES = {k: C06_harness.SHAPES[k] for k in ('t2-two', 't3-mb')}
 BOUNDS = {
     'quick': {'configurations': sorted(CONFIGS), 'against': 'default features', 'shapes': sorted(SHAPES) + sorted(TAG_SHAPES), 'text': '1..2 symbolic characters for every configuration x shape, 3 for the shapes that exercise the deviating feature',
